@@ -100,6 +100,10 @@ def xml_noise(rng, text, p=0.2):
             return '>' + t[:k] + ins + t[k:] + '</'
         return m.group(0)
     out = re.sub(r'>([^<&]+)</', leaf, out)
+    if rng.random() < 0.3:
+        # attributes on ID tags do not change the ID
+        out = re.sub(r'<(storyID|itemID)>', lambda m: '<%s rev="%d">' % (m.group(1), rng.randint(1, 9))
+                     if rng.random() < 0.3 else m.group(0), out)
     r = rng.random()
     if not out.lstrip().startswith('<?xml') and '<!DOCTYPE' not in out:
         if r < 0.25:
@@ -158,6 +162,12 @@ def rand_timing(rng, mode='any'):
         kw['started'] = spell('2020-01-01', rng.randint(0, 23), rng.randint(0, 59), 0)
     if rng.random() < 0.2:
         kw['ended'] = spell('2020-01-02', rng.randint(0, 23), rng.randint(0, 59), 30)
+    if rng.random() < 0.12:
+        # other spellings of a number that float() reads: sign, exponent, padding, leading zero
+        for k_ in ('duration', 'text_time', 'media_time'):
+            if k_ in kw and rng.random() < 0.7:
+                v_ = kw[k_]
+                kw[k_] = rng.choice(['+%s' % v_, ' %s ' % v_, '0%s' % v_, '%se0' % v_, '-%s' % v_, '%s' % (v_ * 1000) + 'e-3'])
     t = B.timing(**kw)
     if rng.random() < 0.15:
         # a vendor element in its own namespace whose local name looks like a MOS timing tag
@@ -268,8 +278,9 @@ def rand_ro(rng, n_stories=None, meta_layout=None, pool=None, timing='any', ids=
                 entries.append(mm)
     if ed_start == 'auto':
         r = rng.random()
-        ed_start = ('2020-01-01T12:30:00' if r < 0.45 else '2020-01-01T12:30:15' if r < 0.6 else
-                    '2020-01-01T12:30:15.500000' if r < 0.7 else ('' if r < 0.8 else None))
+        ed_start = ('2020-01-01T12:30:00' if r < 0.4 else '2020-01-01T12:30:15' if r < 0.5 else
+                    '2020-01-01T12:30:15.500000' if r < 0.58 else '2020-01-01T12:30:00+01:00' if r < 0.64 else
+                    '2020-01-01T12:30:00Z' if r < 0.7 else ('' if r < 0.8 else None))
     pretty = rng.random() < 0.5 if pretty is None else pretty
     env = {}
     if rich and rng.random() < 0.3:
